@@ -588,8 +588,8 @@ func runC15(cfg *config) {
 		}
 		return
 	}
-	r := newRng(cfg.seed)
-	nfn := 260
+	r := seedRng(cfg.seed)
+	nfn := 600
 	if cfg.tier == "thorough" {
 		nfn = 2200
 	}
